@@ -124,6 +124,9 @@ static int fd_fresh(void)
   if (!FD_OK(fd) || (g.fds.open & BIT(fd)) != 0) {
     return -1;
   }
+  if (gc.cfg_no_low_fresh && fd <= 2) {
+    return -1;
+  }
   return fd;
 }
 
@@ -688,7 +691,7 @@ int verif_execvp(const char *file, char *const argv[])
 
   /* C03: the program is a copy of argv[0], or cwd/argv[0] when a working directory
      is requested and argv[0] is a relative path (resolved before chdir) */
-  V_ASSERT("C03/exec.program_is_argv0_or_cwd_prefixed",
+  V_ASSERT("C03+C04/exec.program_is_argv0_or_cwd_prefixed",
            gc.want_prepend ? (file != NULL && file == g.prep_ptr && g.prep_src == gc.want_argv0)
                           : (file != NULL && file == g.dup_ptr && g.dup_src == gc.want_argv0));
   V_ASSERT("C03/exec.argv_is_callers", argv == gc.want_argv);
